@@ -3,7 +3,7 @@
 //! intermediate sum that leaves the capacity type; here each path is a concrete u8 network judged by a u64 oracle.
 use petgraph::algo::ford_fulkerson;
 use petgraph::graph::{Graph, NodeIndex};
-use petgraph::visit::EdgeRef;
+use petgraph::visit::{EdgeRef, IntoEdgeReferences};
 use symx::driver::*;
 use symx::engine::{assume, decide, declare, explore, fail, payload_msg, Config, Stats};
 use symx::topo::Topo;
@@ -128,6 +128,37 @@ fn judge_inner(t: &Topo, caps: &[u8], s: usize, snk: usize) -> Vec<String> {
     }
     if -net[s] != value as i64 {
         bad.push(format!("net flow out of the source is {}, value {}", -net[s], value));
+    }
+    // the same network on a StableGraph whose lowest node index and lowest edge index are vacant
+    {
+        use petgraph::stable_graph::StableGraph;
+        let mut h: StableGraph<(), u8> = StableGraph::new();
+        let x0 = h.add_node(());
+        let ids: Vec<_> = (0..t.n).map(|_| h.add_node(())).collect();
+        let e0 = h.add_edge(x0, ids[0], 9);
+        for (&(a, b), &c) in t.edges.iter().zip(caps) {
+            h.add_edge(ids[a], ids[b], c);
+        }
+        h.remove_edge(e0);
+        h.remove_node(x0);
+        let (v2, f2) = ford_fulkerson(&h, ids[s], ids[snk]);
+        if v2 as u64 != want {
+            bad.push(format!("on a StableGraph with vacancies: value {} but the maximum flow is {}", v2, want));
+        }
+        let mut net2 = vec![0i64; t.n + 1];
+        for e in h.edge_references() {
+            let f = f2[e.id().index()];
+            if f > *e.weight() {
+                bad.push(format!("on a StableGraph with vacancies: edge {} carries {} over capacity {}", e.id().index(), f, e.weight()));
+            }
+            net2[e.source().index()] -= f as i64;
+            net2[e.target().index()] += f as i64;
+        }
+        for v in 0..t.n {
+            if v != s && v != snk && net2[ids[v].index()] != 0 {
+                bad.push(format!("on a StableGraph with vacancies: flow not conserved at node {}", v));
+            }
+        }
     }
     bad
 }
